@@ -96,7 +96,7 @@ class Claim(Signable):
                 else:
                     claim.version = 1
                     compat.from_types_v1(claim, data)
-            except (KeyError, TypeError, AttributeError, ValueError) as e:
+            except (KeyError, TypeError, AttributeError, ValueError, ArithmeticError) as e:
                 raise DecodeError(f'Not a legacy claim payload: {e!r}')
             return claim
 
